@@ -475,6 +475,32 @@ mut('c12-proxy-no-signature-check', ['C12'], OB,
 mut('c12-short-body-matches', ['C12'], RT,
     [("                    if idx >= len(m.body) or m.body[idx] != val:\n                        return", "                    if idx < len(m.body) and m.body[idx] != val:\n                        return")], ['C12.D4'])
 
+# ---- C16 ------------------------------------------------------------------
+IN = 'txdbus/introspection.py'
+twin('c16-prefix-managed-siblings', ['C16'], '97a5019', ['C16.D3'], 'pre-fix twin')
+twin('c16-prefix-root-empty-child', ['C16'], '64e45c7', ['C16.D4'], 'pre-fix twin')
+mut('c16-managed-includes-self', ['C16'], OB,
+    [("            if not p.startswith(prefix) or p == objectPath:\n                continue", "            if not p.startswith(prefix):\n                continue")], ['C16.D3'],
+    note='GetManagedObjects(/) then includes an object exported at / itself')
+mut('c16-managed-prefix-no-slash', ['C16'], OB,
+    [("        prefix = objectPath.rstrip('/') + '/'", "        prefix = objectPath.rstrip('/')")], ['C16.D3'])
+mut('c16-intro-no-normalise', ['C16'], IN,
+    [("    if not objectPath.endswith('/'):\n        objectPath += '/'\n", "")], ['C16.D4'])
+mut('c16-intro-full-subpath', ['C16'], IN,
+    [("            path = path[len(objectPath):].partition('/')[0]", "            path = path[len(objectPath):]")], ['C16.D4'],
+    note='lists grandchildren as b/c')
+mut('c16-export-no-signal', ['C16'], OB,
+    [("            body=[o.getObjectPath(), i],\n        )\n\n        self.conn.sendMessage(msig)\n\n    def unexportObject", "            body=[o.getObjectPath(), i],\n        )\n\n    def unexportObject")], ['C16.D2'])
+mut('c16-unexport-keeps-entry', ['C16'], OB,
+    [("        o = self.exports[objectPath]\n        del self.exports[objectPath]\n", "        o = self.exports[objectPath]\n")], ['C16'])
+mut('c16-removed-signal-name', ['C16'], OB,
+    [("            'InterfacesRemoved',", "            'InterfacesAdded',")], ['C16.D2'])
+mut('c16-foreign-writer', ['C16'], CL,
+    [("        self.objHandler.unexportObject(objectPath)", "        self.objHandler.exports.pop(objectPath, None)")], ['C16'])
+mut('c16-intro-none-when-object', ['C16'], IN,
+    [("    if obj is None and not matches:\n        return None", "    if not matches:\n        return None")], ['C16.D4'],
+    note='a leaf object can no longer be introspected')
+
 # benign variants --------------------------------------------------------------
 mut('ok-int16-condexpr', ['C01', 'C02'], M,
     [("return 2, [struct.pack(lendian and '<h' or '>h', var)]",
